@@ -9,12 +9,25 @@ def run(tier):
     chk = vp.Check("C17", tier)
     wd = vp.workdir("c17")
     thorough = tier == "thorough"
-    drv = vp.build("ptr_driver", ["ptr_driver.cpp"], opt="-O2")
-    tpath = os.path.join(wd, "c17.ndjson")
-    p = vp.run([drv, "c17", tpath, str(vp.seed()), "1" if thorough else "0"], timeout=1100)
-    if p.returncode != 0:
-        raise vp.Broken("ptr_driver c17 rc=%d %s" % (p.returncode, p.stderr[-300:]))
-    events, bad = ac.validate(chk, tpath, "c17")
+    drvs = vp.build_many([("ptr_driver", ["ptr_driver.cpp"], [], "-O2"),
+                          ("ptr_driver_lp16", ["ptr_driver.cpp"], ["-DABI_LP16"], "-O2"),
+                          ("ptr_driver_lp64u", ["ptr_driver.cpp"], ["-DABI_LP64U"], "-O2")])
+    from concurrent.futures import ThreadPoolExecutor
+
+    def one(abi):
+        drv = drvs["ptr_driver" + ("" if abi == "wasm32" else "_" + abi)]
+        tpath = os.path.join(wd, "c17_%s.ndjson" % abi)
+        p = vp.run([drv, "c17", tpath, str(vp.seed()), "1" if thorough else "0"], timeout=1100)
+        if p.returncode != 0:
+            raise vp.Broken("ptr_driver c17/%s rc=%d %s" % (abi, p.returncode, p.stderr[-300:]))
+        evs, bd = ac.validate(chk, tpath, "c17_" + abi)
+        for e in evs:
+            e["abi"] = abi
+        return evs, bd
+    with ThreadPoolExecutor(max_workers=3) as ex:
+        res = list(ex.map(one, ("wasm32", "lp16", "lp64u")))
+    events = [e for evs, _ in res for e in evs]
+    bad = [b for _, bd in res for b in bd]
     combos = set()
     for e in events:
         combos.add((e["kind"], e["el"], e["ity"], e["w"], e["len"], e["cls"]))
